@@ -415,7 +415,11 @@ if __name__ == '__main__':
     before = [lab.is_cached(t) for t in tasks]
     res = lab.run_tasks(tasks, disable_progress=True, disable_top=True)
     after = [lab.is_cached(t) for t in tasks]
-    print(json.dumps({'before': before, 'after': after, 'values': [repr(res.get(t)) for t in tasks], 'keys': [t.cache_key for t in tasks]}))
+    listed = sorted(t.cache_key for t in lab.cached_tasks([MainTask, MainWrap]))
+    relisted = lab.run_tasks(lab.cached_tasks([MainTask]), disable_progress=True, disable_top=True)
+    print(json.dumps({'before': before, 'after': after, 'values': [repr(res.get(t)) for t in tasks], 'keys': [t.cache_key for t in tasks],
+                      'listed': listed, 'all_keys': sorted([t.cache_key for t in tasks] + [MainTask(x=3).cache_key]),
+                      'relisted': sorted(repr(v) for v in relisted.values())}))
 '''
 
 
@@ -448,6 +452,11 @@ def main_script_case(args):
             out.append(('re-executed', f'{d}: run() executed again in the second run: {m2}', 1))
         if r1['values'] != r2['values']:
             out.append(('value-differs', f'{d}: {r1["values"]} vs {r2["values"]}', 1))
+        for i, r in enumerate((r1, r2)):
+            if r['listed'] != r['all_keys']:
+                out.append(('main-script-tasks-not-listed', f'{d}: cached_tasks after run {i + 1} lists keys {r["listed"]}, cached are {r["all_keys"]}', 1))
+            if r['relisted'] != sorted(["('M', 1, 't')", "('M', 2, 'u')", "('M', 3, 't')"]):
+                out.append(('main-script-listed-tasks-do-not-load', f'{d}: running the tasks cached_tasks returns after run {i + 1} gives {r["relisted"]}', 1))
         return out, 3
     finally:
         shutil.rmtree(tmp, ignore_errors=True)
